@@ -11,7 +11,7 @@ RULE = ("every Pauli string (N<=3 quick, N<=4 thorough) x 4 phases x every accep
         "compared with the oracle's own (string -> (g,p)) reading; random lists N<=12, L<=20 with random index "
         "expressions; a case is non-trivial when the string is not the identity or the phase is not +1")
 ASSUMPTIONS = ["oracle reads letters with its own table; phases mod 4", "index semantics = numpy selection on (gs, ps)"]
-REQUIRED_SUBS = ["parse.str.*", "parse.codes.*", "parse.dict", "repr.roundtrip", "token.roundtrip", "list.roundtrip",
+REQUIRED_SUBS = ["parse.str.*", "parse.codes.*", "parse.str.infix", "parse.dict", "repr.roundtrip", "token.roundtrip", "list.roundtrip",
                  "attr.*", "index.int", "index.slice", "index.mask", "index.array", "neg", "scalar.*"]
 
 PREFIX = {'': 0, '+': 0, '-': 2, 'i': 1, '-i': 3, '+i': 1}
@@ -63,6 +63,18 @@ def run_exh(shard, rec, B):
                     if ok:
                         good, obs = _same(B, P, g, p)
                         rec.check("parse.str.%s" % (pre or "none"), good, txt, nt, expected=O.show(g, p), observed=obs)
+                    # the same markers written between the letters (the repository's own tests write '-XiXY'), in one piece
+                    # or with the sign first and the i further on
+                    if pre:
+                        for k in range(1, N + 1):
+                            forms = [s[:k] + pre + s[k:]]
+                            if len(pre) == 2:
+                                forms += [s[:j] + pre[0] + s[j:k] + pre[1] + s[k:] for j in range(0, k)]
+                            for txt2 in forms:
+                                ok, P = rec.attempt("parse.str.infix", txt2, lambda: lib.pauli(txt2))
+                                if ok:
+                                    good, obs = _same(B, P, g, p)
+                                    rec.check("parse.str.infix", good, txt2, nt, expected=O.show(g, p), observed=obs)
                 # --- code arrays: list, tuple, ndarray; phase code leading, trailing, absent (p=0)
                 variants = []
                 codes = [int(k) for k in lets]
@@ -70,6 +82,8 @@ def run_exh(shard, rec, B):
                     variants.append(("bare", codes))
                 variants.append(("lead", [CODE[p]] + codes))
                 variants.append(("trail", codes + [CODE[p]]))
+                for k in range(1, N):
+                    variants.append(("infix", codes[:k] + [CODE[p]] + codes[k:]))
                 for nm, cs in variants:
                     for kind, obj in (("list", list(cs)), ("tuple", tuple(cs)), ("ndarray", np.array(cs))):
                         ok, P = rec.attempt("parse.codes", [nm, kind, cs], lambda: lib.pauli(obj))
